@@ -5,6 +5,7 @@ from .common import Laws, run_subprocess, main_entry
 from .. import inputs
 
 SPEC = dict(
+    technique='Lean 4 proof (argument-form model, scalar/packed and unit equalities on the regenerated model) + exhaustive correspondence and form enumeration',
     lean_modules=['SmVerif.Props.C15'],
     groups=['Transforms3d', 'Transforms2d', 'Quaternions'],
     expected_untranslatable=('trinterp_T', 'trinterp_T_nostart'),
@@ -227,6 +228,33 @@ def _impl(tier, seed, search):
     close('SO3.angvec', lambda: SO3(Ra).angvec(unit='deg')[0], lambda: SO3(Ra).angvec()[0] * 180 / math.pi, 1e-9, 180.0)
     close('SO2(theta)', lambda: SO2(a, unit='deg'), lambda: SO2(ar)); close('SE2(x,y,theta)', lambda: SE2(x, y, a, unit='deg'), lambda: SE2(x, y, ar))
     close('SO2.theta', lambda: SO2(ar).theta(unit='deg'), lambda: SO2(ar).theta() * 180 / math.pi, 1e-9, 180.0)
+    T2u = b.xyt2tr([x, y, ar])
+    close('tr2xyt', lambda: b.tr2xyt(T2u, unit='deg'), lambda: b.tr2xyt(T2u) * np.r_[1, 1, 180 / math.pi], 1e-9, 180.0)
+    close('SO2.theta(multi)', lambda: np.asarray(SO2([ar, ar / 2]).theta(unit='deg'), float), lambda: np.asarray(SO2([ar, ar / 2]).theta(), float) * 180 / math.pi, 1e-9, 180.0)
+    for o in ('zyx', 'xyz', 'yxz'):        # singular configurations too (pitch = +-90 deg): the unit conversion must not depend on the branch
+        for pv in (90.0, -90.0):
+            Rs_ = b.rpy2r([20.0, pv, -35.0], unit='deg', order=o)
+            close(f'tr2rpy-singular[{o}]', lambda: b.tr2rpy(Rs_, unit='deg', order=o), lambda: b.tr2rpy(Rs_, order=o) * 180 / math.pi, 1e-9, 180.0)
+            close(f'SO3.rpy-singular[{o}]', lambda: SO3(Rs_, check=False).rpy(unit='deg', order=o), lambda: SO3(Rs_, check=False).rpy(order=o) * 180 / math.pi, 1e-9, 180.0)
+    for e2 in (0.0, 180.0):
+        Re_ = b.eul2r([25.0, e2, 40.0], unit='deg')
+        close('tr2eul-singular', lambda: b.tr2eul(Re_, unit='deg'), lambda: b.tr2eul(Re_) * 180 / math.pi, 1e-9, 180.0)
+    # multi-valued objects: order / unit must reach every element
+    Xm = SO3([b.rpy2r(a3r, order='zyx'), b.rpy2r(a3r * 0.5, order='zyx')])
+    for o in ('zyx', 'xyz', 'yxz'):
+        def per_elem(A_):           # (N,3) or (3,N): one row per value
+            A_ = np.asarray(A_, float); return A_ if A_.shape == (2, 3) else A_.T
+        close(f'SO3.rpy(multi)[{o}]', lambda: per_elem(Xm.rpy(unit='deg', order=o)), lambda: np.stack([np.asarray(Xm[k_].rpy(order=o), float) for k_ in range(2)]) * 180 / math.pi, 1e-9, 180.0)
+    close('SO3.eul(multi)', lambda: per_elem(Xm.eul(unit='deg')), lambda: np.stack([np.asarray(Xm[k_].eul(), float) for k_ in range(2)]) * 180 / math.pi, 1e-9, 180.0)
+    # array_like angle arguments: list / tuple / array forms of angdiff
+    for nm_, fa_, fb_ in (('angdiff(list)', lambda: b.angdiff([4.0, -7.0, 0.3]), lambda: b.angdiff(np.array([4.0, -7.0, 0.3]))),
+                          ('angdiff(tuple)', lambda: b.angdiff((4.0, -7.0, 0.3)), lambda: b.angdiff(np.array([4.0, -7.0, 0.3]))),
+                          ('angdiff(list,list)', lambda: b.angdiff([4.0, -7.0], [0.5, 9.0]), lambda: b.angdiff(np.array([4.0, -7.0]), np.array([0.5, 9.0]))),
+                          ('angdiff(list,scalar)', lambda: b.angdiff([4.0, -7.0], 0.5), lambda: b.angdiff(np.array([4.0, -7.0]), 0.5)),
+                          ('angdiff(scalar,list)', lambda: b.angdiff(0.5, [4.0, -7.0]), lambda: b.angdiff(0.5, np.array([4.0, -7.0])))):
+        L.count('forms-angle', key=nm_); L.sample('forms-angle', dict(callable=nm_))
+        ra_, rb_ = run(fa_, []), run(fb_, [])
+        if ra_ != rb_: L.fail(f'form:{nm_}', f'{nm_}: list/tuple form differs from the array form ({ra_[0]}/{rb_[0]})', dict(callable=nm_))
     close('Twist3.exp(units)', lambda: Twist3.Revolute([0, 0, 1], [1, 2, 0]).exp(a, units='deg'), lambda: Twist3.Revolute([0, 0, 1], [1, 2, 0]).exp(ar), 1e-9)
     close('Twist2.exp(units)', lambda: Twist2.Revolute([1, 2]).exp(a, units='deg'), lambda: Twist2.Revolute([1, 2]).exp(ar), 1e-9)
     # ---- unknown order / unit rejected -----------------------------------------------------------------------------------
@@ -239,7 +267,9 @@ def _impl(tier, seed, search):
         'angvec2r(unit=grad)': lambda: b.angvec2r(a, vv, unit='grad'), 'xyt2tr(unit=grad)': lambda: b.xyt2tr([x, y, a], 'grad'), 'SO3.Rx(unit=grad)': lambda: SO3.Rx(a, 'grad'), 'SE3.Ry(unit=grad)': lambda: SE3.Ry(a, 'grad'),
         'UQ.Rz(unit=grad)': lambda: UnitQuaternion.Rz(a, 'grad'), 'SO2(unit=grad)': lambda: SO2(a, unit='grad'), 'SE2(unit=grad)': lambda: SE2(x, y, a, unit='grad'), 'SO3.RPY(unit=grad)': lambda: SO3.RPY(a3, unit='grad'),
         'SO3.Eul(unit=grad)': lambda: SO3.Eul(a3, unit='grad'), 'SO3.AngVec(unit=grad)': lambda: SO3.AngVec(a, vv, unit='grad'), 'UQ.AngVec(unit=grad)': lambda: UnitQuaternion.AngVec(a, vv, unit='grad'),
-        'getunit(unit=grad)': lambda: b.getunit(a, 'grad'),
+        'getunit(unit=grad)': lambda: b.getunit(a, 'grad'), 'angvec2r(zero axis, unit=grad)': lambda: b.angvec2r(a, [0, 0, 0], unit='grad'),
+        'angvec2tr(zero axis, unit=grad)': lambda: b.angvec2tr(a, [0, 0, 0], unit='grad'), 'SO3.AngVec(zero axis, unit=grad)': lambda: SO3.AngVec(a, [0, 0, 0], unit='grad'),
+        'SO3.rpy(multi, order=xzy)': lambda: Xm.rpy(order='xzy'),
     }
     for name, f in REJ.items():
         L.raises('unknown-option', f, dict(call=name), f'{name} must be rejected with an exception', sig=f'unknown-option:{name}')
